@@ -14,5 +14,11 @@ func TestReplay(t *testing.T) {
 	if p == "" {
 		t.Skip("no VERIF_REPLAY")
 	}
+	var probe map[string]any
+	if err := engine.LoadJSON(p, &probe); err == nil {
+		if _, ok := probe["steps"]; !ok {
+			t.Skip("replay file of another engine")
+		}
+	}
 	engine.Replay(t, p)
 }
